@@ -117,6 +117,17 @@ fn main() {
             let red = reduce::reduce_program(&start_prog, &mut still, 2000);
             println!("{}", gen_lisp::render_program(&red, Some(d)));
         }
+        "helper-gentle" => {
+            let out = PathBuf::from(args.get(2).expect("out"));
+            let data = PathBuf::from(args.get(3).expect("data"));
+            std::process::exit(props::c19::helper_gentle(&out, &data, args.iter().any(|a| a == "--drop-privileges")));
+        }
+        "helper-compile" => {
+            let src = PathBuf::from(args.get(2).expect("src"));
+            let out = PathBuf::from(args.get(3).expect("out"));
+            let n: usize = args.get(4).and_then(|s| s.parse().ok()).unwrap_or(1);
+            std::process::exit(props::c19::helper_compile(&src, &out, n));
+        }
         "show" => {
             let prop = props::lookup(args.get(2).unwrap_or_else(|| usage())).expect("property");
             let sec = arg_after(&args, "--sec").unwrap_or_default();
